@@ -20,7 +20,7 @@ META = {
 
 def jobs(tier):
     js = []
-    cfgs = [(1, 2, 0), (1, 2, 1), (1, 3, 0)] if tier == "quick" else [(1, 2, 0), (1, 2, 1), (1, 3, 0), (1, 3, 1), (2, 2, 0), (2, 2, 1)]
+    cfgs = [(1, 1, 0), (1, 2, 0), (1, 2, 1), (1, 3, 0)] if tier == "quick" else [(1, 2, 0), (1, 2, 1), (1, 3, 0), (1, 3, 1), (2, 2, 0), (2, 2, 1)]
     for nt, ntask, flags in cfgs:
         js.append(Job("C06.seq.T%d.K%d.F%d" % (nt, ntask, flags), "l0/thpool_seq.c", sources=SRC,
                       extra_harness=["common/vf_defs.c"], defines={"NT": nt, "NTASK": ntask, "FLAGS": flags},
